@@ -8,6 +8,7 @@ by correspondence), `decT`/`encT` (Model.lean: the typed codec driven by a schem
 -/
 import YouVerif.C14.Model
 import YouVerif.C14.GenSchemas
+import YouVerif.C14.GenEntryPoints
 import YouVerif.C14.ProofsUntyped
 import YouVerif.C14.ProofsTyped
 namespace YouVerif.C14.Props
@@ -130,6 +131,44 @@ theorem typed_canonical_generated_partial : ∀ p ∈ Gen.schemas, Gen.nonCanoni
   have := canonical_schemas p hp
   rw [hn] at this
   exact typed_canonical p.2 this bs v
+
+/-! ## decode entry points (regenerated go/ast scan of the anchored packages) -/
+
+/-- The call sites that may read ONE value through a reader/stream that does not check that the input is used up, with
+the reason each is tolerated. Everything else must go through `rlp.DecodeBytes` (exhaustive: this is the `Rlp.decode` of
+the theorems above, trailing bytes = `Err.trailing`) or be a nested `Decode` inside a `DecodeRLP` method. -/
+def nonExhaustiveAllowed : List (String × String) := [
+  -- local database / hash-verified trie leaves written by the node's own (canonical) encoder
+  ("consensus/ucon/vote_cache.go", "ReadVoteData"),
+  ("core/rawdb/accessors_chain.go", "ReadBody"),
+  ("core/rawdb/accessors_chain.go", "ReadHeader"),
+  ("core/state/iterator.go", "NodeIterator.step"),
+  ("core/state/sync.go", "NewStateSync"),
+  -- the p2p envelope (go-ethereum's Msg.Decode): decoded values are re-encoded before being stored or relayed, the raw
+  -- envelope is never kept; out of the harness' reach (package you / p2p cannot be linked under Go 1.23)
+  ("p2p/message.go", "Msg.Decode"),
+  ("you/handler.go", "ProtocolManager.handleBlockBodiesMsg"),
+  ("you/handler.go", "ProtocolManager.handleGetBlockBodiesMsg"),
+  ("you/handler.go", "ProtocolManager.handleGetBlockMsg"),
+  ("you/handler.go", "ProtocolManager.handleGetHeadersMsg"),
+  ("you/handler.go", "ProtocolManager.handleGetNodeDataMsg"),
+  ("you/handler.go", "ProtocolManager.handleGetReceiptsMsg"),
+  ("you/handler.go", "ProtocolManager.handleNewBlockHashMsg"),
+  ("you/handler.go", "ProtocolManager.handleNewBlockMsg"),
+  ("you/handler.go", "ProtocolManager.handleNewTxMsg"),
+  ("you/handler.go", "ProtocolManager.handleNodeDataMsg"),
+  ("you/handler.go", "ProtocolManager.handleReceiptsMsg"),
+  ("you/handler.go", "ProtocolManager.handleReceiveHeadersMsg"),
+  ("you/peer.go", "peer.readStatus"),
+  -- extracts the byte string that carries the consensus message; only that string goes on to ucon.Decode (exhaustive)
+  ("you/ucon_handler.go", "UConProtocolManager.handleMsg")]
+
+/-- No anchored entry point outside the allow-list decodes through a non-exhaustive reader: in particular the consensus
+message (`ucon.Decode`, `Message.DecodePayload`), header consensus/validator/slash data, evidences, staking messages and
+their payloads, log data, and every state/validator reload use `rlp.DecodeBytes`. -/
+theorem entry_points_exhaustive :
+    Gen.decodeSites.all (fun s => s.kind == .exhaustive || s.kind == .inner ||
+      nonExhaustiveAllowed.contains (s.file, s.fn)) = true := by decide
 
 /-! ## the non-canonical codecs: negation proved on the model with concrete witnesses (replayed on the real code by
 the harness probes F-C14a…c) -/
